@@ -260,7 +260,7 @@ func runPath(prog *ssa.Program, fn *ssa.Function, cfg *Config, sol *solver, pref
 		case harnessStop:
 			pr.status, pr.detail = "ok", p.why
 		case unsupported:
-			pr.status, pr.detail = "unsupported", p.msg
+			pr.status, pr.detail = "unsupported", p.msg+" [in "+i.stackString()+"]"
 		case budgetExceeded:
 			pr.status, pr.detail = "budget", p.why
 		case wildDeref:
@@ -269,7 +269,7 @@ func runPath(prog *ssa.Program, fn *ssa.Function, cfg *Config, sol *solver, pref
 			px.escaped("memory: " + p.msg)
 		default:
 			pr.status = "ok"
-			px.escaped(panicString(r))
+			px.escaped(panicString(r) + " [in " + i.stackString() + "]")
 		}
 	}()
 	call(i, nil, token.NoPos, fn, nil)
@@ -350,3 +350,15 @@ func (r *Result) Summary() string {
 }
 
 var _ = os.Stderr
+
+func (i *interpreter) stackString() string {
+	st := i.stackAtPanic
+	if st == nil {
+		st = i.stack
+	}
+	var names []string
+	for k := len(st) - 1; k >= 0 && len(names) < 6; k-- {
+		names = append(names, st[k].String())
+	}
+	return strings.Join(names, " < ")
+}
